@@ -1,1 +1,110 @@
+/-
+  Property C07 — Keystore V3 files round-trip keys, reject wrong passwords, detect tampering.
+  Model: FFS.Model.Keystore (newScryptWalletFileBytes with the random salt and IV as inputs; ReadWalletFile).
+  Primitives (scrypt, PBKDF2-HMAC-SHA256, Keccak-256, AES-128 block) are executable Lean references validated
+  against the Go libraries by the correspondence run; the theorems use only that CTR mode is data ⊕ keystream
+  (`Prim.aes128Ctr_involutive`) and that the KDFs return the requested number of bytes.
+  * `create_read_roundtrip` : for every key, password, salt, 16-byte IV and admissible cost parameters, reading
+                              the file just created with the same password returns exactly the key.
+  * `created_is_standard`   : the independent V3 reader (Spec.KeystoreV3.v3Read) decrypts the created file to the
+                              same key.
+  * `accept_iff_mac_partial`: on a well-formed scrypt file the reader returns a key exactly when the MAC recomputed
+                              from the password-derived key matches the stored MAC — so a different password or a
+                              changed ciphertext / MAC / salt / cost parameter is accepted only on a Keccak-256
+                              collision of the MAC input. PARTIAL: "returns an error for ANY other password" is a
+                              cryptographic claim (collision resistance), not a theorem.
+  * `fresh_randomness`      : salt and IV come from crypto/rand for every new file (regenerated fact).
+-/
 import FFS.Model.Keystore
+import FFS.Spec.KeystoreV3
+import FFS.Props.C15
+namespace FFS.Props.C07
+open FFS FFS.Model.Keystore FFS.Gen.KeystoreConsts
+
+theorem fresh_randomness : freshSaltIV = true ∧ defaultR = 8 := by decide
+
+/-- cost parameters `scrypt.Key` admits (r is the package's constant 8) -/
+def CostOK (n p : Nat) : Prop :=
+  1 < n ∧ isPow2 n = true ∧ 0 < p ∧ 8 * p < 2 ^ 30 ∧ (n : Int) ≤ maxInt / 128 / 8
+
+theorem scryptKey_of_cost (pw salt : Bytes) (n p : Nat) (h : CostOK n p) :
+    scryptKey pw salt n defaultR p 32 = .ok (Prim.scrypt pw salt n 8 p 32) := by
+  obtain ⟨h1, h2, h3, h4, h5⟩ := h
+  unfold scryptKey
+  have e1 : ¬ ((n : Int) ≤ 1 ∨ (!isPow2 (n : Int).toNat) = true) := by
+    simp only [Int.toNat_natCast, h2, Bool.not_true, Bool.false_eq_true, or_false]
+    omega
+  have e2 : ¬ (((defaultR : Nat) : Int) < 0 ∨ (p : Int) < 0) := by omega
+  have e3 : ¬ ((p : Int) = 0 ∨ ((defaultR : Nat) : Int) = 0) := by simp [fresh_randomness.2]; try omega
+  have hm1 : maxInt / 128 / (p : Int) ≥ 8 := by
+    have : (p : Int) ≤ 2 ^ 27 := by omega
+    have hp : (0 : Int) < p := by omega
+    have : (8 : Int) * p ≤ maxInt / 128 := by
+      have : maxInt / 128 = 72057594037927935 := by decide
+      rw [this]; omega
+    exact (Int.le_ediv_iff_mul_le hp).mpr this
+  have e4 : ¬ (((defaultR : Nat) : Int) * p ≥ 2 ^ 30 ∨ ((defaultR : Nat) : Int) > maxInt / 128 / p ∨
+      ((defaultR : Nat) : Int) > maxInt / 256 ∨ (n : Int) > maxInt / 128 / ((defaultR : Nat) : Int)) := by
+    have h256 : maxInt / 256 = 36028797018963967 := by decide
+    rw [fresh_randomness.2, h256]
+    have h8 : ((8 : Nat) : Int) = 8 := rfl
+    rw [h8]
+    omega
+  have e5 : ¬ ((32 : Int) < 0) := by decide
+  rw [if_neg e1, if_neg e2, if_neg e3, if_neg e4, if_neg e5]
+  simp [fresh_randomness.2]
+
+/-- **Create, then read with the same password: the same key.** -/
+theorem create_read_roundtrip (pw key salt iv : Bytes) (n p : Nat) (hiv : iv.length = 16) (hc : CostOK n p) :
+    readWalletFile (newScryptFile pw key salt iv n p) pw = .ok key := by
+  have hdk : (Prim.scrypt pw salt n 8 p 32).length = 32 := Prim.scrypt_length _ _ _ _ _ _
+  have hs := scryptKey_of_cost pw salt n p hc
+  have hp : ¬ ((p : Int) ≤ 0) := by have := hc.2.2.1; omega
+  unfold readWalletFile newScryptFile
+  simp only [C15.facts, Bool.false_eq_true, if_false, ne_eq, not_true_eq_false, if_true]
+  unfold decryptScrypt
+  simp only [C15.facts.1, Bool.true_and, ne_eq, not_true_eq_false, decide_false, Bool.false_eq_true, if_false]
+  have hr : ¬ (((defaultR : Nat) : Int) ≤ 0 ∨ (p : Int) ≤ 0) := by simp [fresh_randomness.2]; omega
+  simp only [hr, decide_false, Bool.false_eq_true, if_false, hs]
+  unfold decryptCommon
+  simp only [hdk, ne_eq, not_true_eq_false, if_false, C15.facts.2.1, hiv, decide_false, Bool.and_false,
+    Bool.false_eq_true, newScryptWallet, fresh_randomness.2, generateMac]
+  simp [Prim.aes128Ctr_involutive]
+
+/-- **The created file is a standard V3 document**: the independent reader decrypts it to the same key. -/
+theorem created_is_standard (pw key salt iv : Bytes) (n p : Nat) (hiv : iv.length = 16) (hc : CostOK n p) :
+    Spec.KeystoreV3.v3Read (newScryptFile pw key salt iv n p) pw = some key :=
+  C15.read_sound_partial _ pw key (by simp [newScryptFile, C15.facts]) (create_read_roundtrip pw key salt iv n p hiv hc)
+
+/-- **Acceptance is exactly MAC agreement** on a well-formed scrypt file (whatever the password). -/
+theorem accept_iff_mac_partial (f : KsFile) (pw : Bytes)
+    (hwf : f.commonErr = false ∧ f.idNil = false ∧ f.kdfErr = false ∧ f.version = 3 ∧ f.kdf = "scrypt" ∧ f.dklen = 32 ∧
+      f.iv.length = 16)
+    (dk : Bytes) (hdk : scryptKey pw f.salt f.n f.r f.p 32 = .ok dk) :
+    (∃ k, readWalletFile f pw = .ok k) ↔ Prim.keccak256 ((dk.drop 16).take 16 ++ f.ciphertext) = f.mac := by
+  obtain ⟨h1, h2, h3, h4, h5, h6, h7⟩ := hwf
+  obtain ⟨_, _, hr, hp, _, _, hdkeq⟩ := C15.scryptKey_ok _ _ _ _ _ _ _ hdk
+  have hlen : dk.length = 32 := by rw [hdkeq]; exact Prim.scrypt_length _ _ _ _ _ _
+  have hrp : ¬ (f.r ≤ 0 ∨ f.p ≤ 0) := by omega
+  have hread : readWalletFile f pw = decryptCommon f dk := by
+    unfold readWalletFile
+    simp only [h1, h2, h3, h4, h5, C15.facts, Bool.false_eq_true, if_false, ne_eq, not_true_eq_false, if_true]
+    unfold decryptScrypt
+    simp [C15.facts.1, h6, hrp, hdk]
+  rw [hread]
+  unfold decryptCommon
+  simp only [hlen, ne_eq, not_true_eq_false, if_false, C15.facts.2.1, h7, decide_false, Bool.and_false, Bool.false_eq_true,
+    generateMac]
+  constructor
+  · rintro ⟨k, hk⟩
+    by_cases hm : Prim.keccak256 ((dk.drop 16).take 16 ++ f.ciphertext) = f.mac
+    · exact hm
+    · simp [hm] at hk
+  · intro hm
+    exact ⟨Prim.aes128Ctr (dk.take 16) f.iv f.ciphertext, by simp [hm]⟩
+
+/-- non-vacuity: the package's own cost parameters are admissible -/
+example : CostOK nLight pDefault ∧ CostOK nStandard pDefault := by
+  refine ⟨⟨by decide, by decide, by decide, by decide, by decide⟩, ⟨by decide, by decide, by decide, by decide, by decide⟩⟩
+
+end FFS.Props.C07
